@@ -3,6 +3,8 @@ CONSTANTS
   LegacyBreak = FALSE
   SwapIn = ""
   NoShadow = TRUE
+  NoPreCheck = FALSE
+  XParU = {}
   ShallowSub = FALSE
   IgnoreNs = FALSE
   ModSharedPath = FALSE
